@@ -84,6 +84,14 @@ namespace awkward {
                                : stops[i] - stops[i - 1]);
 
       while (dst.get() == nullptr  ||  dst.get()->length() < length) {
+        if (partitionid >= numpartitions()) {
+          if (dst.get() == nullptr  &&  length == 0) {
+            ContentPtr last = partitions_.back();
+            dst = last.get()->getitem_range_nowrap(last.get()->length(), last.get()->length());
+            break;
+          }
+          throw std::invalid_argument(std::string("repartition stops exceed the array") + FILENAME(__LINE__));
+        }
         ContentPtr piece(nullptr);
         ContentPtr src = partitions_[(size_t)partitionid];
         int64_t available = src.get()->length() - index;
